@@ -2,7 +2,7 @@
 # Runs every check's quick (or $1) tier on /repo sequentially; prints one line per check.
 D=$(cd "$(dirname "$0")/.." && pwd)
 T=${1:-quick}
-for id in C01 C02 C03 C04 C05 C06 C07 C08 C09 C10 C11 C12 C13 C14 C15 C16 C17 C18 C19 C20; do
+for id in ${RUN_IDS:-C01 C02 C03 C04 C05 C06 C07 C08 C09 C10 C11 C12 C13 C14 C15 C16 C17 C18 C19 C20}; do
   s=$(date +%s)
   "$D/check" $id $T > /tmp/runall-$id-$T.log 2>&1; rc=$?
   echo "$id $T exit=$rc $(( $(date +%s) - s ))s $(grep -c '^KNOWN-FINDING' /tmp/runall-$id-$T.log) known $(grep -c '^INCONCLUSIVE' /tmp/runall-$id-$T.log) inconclusive"
